@@ -66,7 +66,7 @@ def run(tier, seed):
     res = core.Result(PROP, tier, seed)
     if os.path.exists(UNSUPPORTED):
         _TABLE = set(json.load(open(UNSUPPORTED)))
-    r = tlc.run_sharded("MC_C02", "c02." + tier, 16, dict(Tier=tier, Seed=seed),
+    r = tlc.run_sharded("MC_C02", "c02." + tier, 16, dict(Tier=tier, Seed=seed, ValSeed=seed),
                         invariants=["InvSizeA", "InvSizeB", "InvAlgebra", "InvCommute"], timeout=6000)
     res.add_tlc("MC_C02", r)
     if r["violated"]:
